@@ -8,10 +8,12 @@ milliseconds; `TestReqID = now / 1000`.
 
 Sections
  1. `testreq_sent`            – when / what the watchdog probes
- 2. `dead_peer_disconnected`  – a silent peer is dropped between `t0 + (3h−2)·1000` and `t0 + (3h−1)·1000 + 2δ`
+ 2. `dead_peer_disconnected`  – a silent peer is dropped between `t0 + 2h·1000` (`t0 + (3h−1)·1000` when the
+    TestRequest went out) and `t0 + (3h−1)·1000 + 2δ`
  3. `live_peer_spared`        – a peer answering every TestRequest in time is never dropped (exact margin)
- 4. `live_peer_spared_traffic_partial` – traffic alone spares the peer only when it keeps every tick
-    below the idle threshold `(h−1)·1000`; the property's wording (`…_full`) is refuted in Findings/C12
+ 4. `live_peer_spared_traffic` – valid traffic at least every `2h·1000` ms alone spares the peer (true since
+    fix e3d9663; it was the known finding C12-traffic-does-not-answer-testrequest before);
+    `fresh_traffic_never_probed` – below the idle threshold `(h−1)·1000` no TestRequest is even sent
  5. step lemmas: `testrequest_echoed`, `one_outstanding_*`, `wrong_id_logout`, `right_id_clears`,
     `heartbeat_without_id_ignored`
 -/
@@ -107,26 +109,24 @@ example : ∃ pre e post c', [env0 100500, env0 101500] = pre ++ e :: post ∧
 
 /-! ## 2. a dead peer is disconnected -/
 
-/-- What a tick does while TestReqID `id` is outstanding depends on NOTHING but `now − id·1000`: beyond
-`2·h·1000` it disconnects (socket closed, DISCONNECTED_BROKEN_CONN, `on_disconnect`) – however recent
-the last inbound frame is; otherwise it writes nothing. -/
-theorem outstanding_tick (env : Env) (h id : Int) (c : Conn) (ha : Armed h id c) (hh : 1 ≤ h) (h0 : id ≠ 0) :
-    (h * 2 * 1000 < env.now - id * 1000 → tick env c = (dropped c, dropEff)) ∧
-    (env.now - id * 1000 ≤ h * 2 * 1000 →
-      (tick env c).2 = [] ∧ Armed h id (tick env c).1) := by
-  have ht := tick_outstanding env c id ha.sock ha.active ha.tid h0 (by rw [ha.hb]; exact hh)
+/-- What a tick does while TestReqID `id` is outstanding (and some frame has been stamped, `lastTime ≠ 0`)
+depends on NOTHING but `now − lastTime`, where `lastTime` is the later of the last valid inbound frame
+and the moment the TestRequest went out: beyond `2·h·1000` it disconnects (socket closed,
+DISCONNECTED_BROKEN_CONN, `on_disconnect`), otherwise it does nothing at all. -/
+theorem outstanding_tick (env : Env) (h id : Int) (c : Conn) (ha : Armed h id c) (h0 : id ≠ 0)
+    (hL : c.lastTime ≠ 0) :
+    (h * 2 * 1000 < env.now - c.lastTime → tick env c = (dropped c, dropEff)) ∧
+    (env.now - c.lastTime ≤ h * 2 * 1000 → tick env c = (c, [])) := by
+  have ht := tick_outstanding env c id ha.sock ha.active ha.tid h0
   have hb := ha.hb
   constructor
   · intro hx
-    rw [ht, if_pos (by omega)]
+    rw [ht, if_pos ⟨by omega, Or.inl hL⟩]
   · intro hx
-    rw [ht, if_neg (by omega)]
-    split
-    · exact ⟨rfl, ⟨⟨ha.active, ha.sock, ha.hb⟩, ha.tid⟩⟩
-    · exact ⟨rfl, ha⟩
+    rw [ht, if_neg (fun hc => by have := hc.1; omega)]
 
-/-- With nothing outstanding a tick never disconnects on ACTIVE: the "no message for `2·h`" test of the
-loop is dead code in this state, because the idle branch has just refreshed `lastTime`. -/
+/-- With nothing outstanding a tick never disconnects on ACTIVE: either the last frame is recent or the
+idle branch has just sent a TestRequest and stamped `lastTime` (or was aborted by a failing send). -/
 theorem no_outstanding_tick_never_disconnects (env : Env) (h : Int) (c : Conn) (hu : Up h c) (hh : 1 ≤ h)
     (hn : c.testReqId = none) : NoDisc (tick env c).2 ∧ Up h (tick env c).1 := by
   by_cases hidle : (h - 1) * 1000 < env.now - c.lastTime
@@ -137,10 +137,11 @@ theorem no_outstanding_tick_never_disconnects (env : Env) (h : Int) (c : Conn) (
 
 /-- `dead_peer_disconnected`: last inbound frame at `t0 = lastTime ≥ 1000`, none outstanding, then
 silence; ticks at most `δ` apart that go on beyond `t0 + (3h−1)·1000 + δ`.  Then some tick `e` tears the
-connection down, with `t0 + (3h−2)·1000 < e ≤ t0 + (3h−1)·1000 + 2δ` ("about three intervals", slack
-explicit); before it the connection stays logged on, nothing is torn down and at most one frame – a
-TestRequest – is written.  No assumption that the TestRequest can be sent: the id is recorded even when
-`send_msg` raises. -/
+connection down, with `t0 + 2h·1000 < e ≤ t0 + (3h−1)·1000 + 2δ` ("about three intervals", slack
+explicit) and even `t0 + (3h−1)·1000 < e` when the TestRequest went out; before it the connection stays
+logged on, nothing is torn down and at most one frame – a TestRequest – is written.  No assumption that
+the TestRequest can be sent: the id is recorded even when `send_msg` raises (then `lastTime` stays `t0`
+and the "message last time" test fires `2h` after it). -/
 theorem dead_peer_disconnected (sr : Msg → Bool) (h δ : Int) (c : Conn) (envs : List Env) (hh : 1 ≤ h)
     (hδ : 0 ≤ δ) (hu : Up h c) (hn : c.testReqId = none) (ht0 : 1000 ≤ c.lastTime)
     (hsp : Spaced δ c.lastTime envs)
@@ -150,30 +151,32 @@ theorem dead_peer_disconnected (sr : Msg → Bool) (h δ : Int) (c : Conn) (envs
       (writes (run sr c (ticks pre)).2).length ≤ 1 ∧
       (∀ f ∈ writes (run sr c (ticks pre)).2, f.mtype = mTestRequest) ∧
       tick e (run sr c (ticks pre)).1 = (dropped (run sr c (ticks pre)).1, dropEff) ∧
-      c.lastTime + (3 * h - 2) * 1000 < e.now ∧ e.now ≤ c.lastTime + (3 * h - 1) * 1000 + 2 * δ := by
+      c.lastTime + h * 2 * 1000 < e.now ∧ e.now ≤ c.lastTime + (3 * h - 1) * 1000 + 2 * δ ∧
+      (writes (run sr c (ticks pre)).2 ≠ [] → c.lastTime + (3 * h - 1) * 1000 < e.now) := by
   -- phase 1
   have hex1 : ∃ e ∈ envs, (h - 1) * 1000 < e.now - c.lastTime := by
     obtain ⟨e, he, hb⟩ := hlong; exact ⟨e, he, by omega⟩
   obtain ⟨pre1, e1, post1, hsplit, hrun1, hpre, hb1, hb2⟩ :=
     first_idle_tick sr h δ c hu hh hn c.lastTime envs hsp (by omega) hex1
-  obtain ⟨u1, t1, n1, w1, l1⟩ := tick_none_idle_ctl e1 h c hu hh hn hb1
+  obtain ⟨u1, t1, n1, w1, l1, lw, ll⟩ := tick_none_idle_ctl e1 h c hu hh hn hb1
   have hsec : e1.secs = e1.now / 1000 := rfl
   have hid0 : e1.secs ≠ 0 := by rw [hsec]; omega
   have harm : Armed h e1.secs (tick e1 c).1 := ⟨u1, t1⟩
+  have hL0 : (tick e1 c).1.lastTime ≠ 0 := by rcases ll with l | l <;> rw [l] <;> omega
   -- phase 2
   have hsp2 : Spaced δ e1.now post1 := by rw [hsplit] at hsp; exact hsp.tail
-  have hex2 : ∃ e ∈ post1, e1.secs * 1000 + h * 2 * 1000 < e.now := by
+  have hex2 : ∃ e ∈ post1, (tick e1 c).1.lastTime + h * 2 * 1000 < e.now := by
     obtain ⟨e, he, hb⟩ := hlong
     rw [hsplit] at he
     rcases List.mem_append.mp he with hm | hm
     · have := hpre e hm; omega
     · rcases List.mem_cons.mp hm with rfl | hm
       · omega
-      · exact ⟨e, hm, by rw [hsec]; omega⟩
-  obtain ⟨pre2, e2, post2, c', hsplit2, hrun2, ha', htick, hc1, hc2⟩ :=
-    expiry_tick sr h δ e1.secs hh hid0 _ harm e1.now post1 hsp2 (by rw [hsec]; omega) hex2
+      · exact ⟨e, hm, by rcases ll with l | l <;> rw [l] <;> omega⟩
+  obtain ⟨pre2, e2, post2, hsplit2, hrun2, htick, hc1, hc2⟩ :=
+    expiry_tick sr h δ e1.secs hid0 _ harm hL0 e1.now post1 hsp2 hex2
   -- assemble
-  have hrun : run sr c (ticks (pre1 ++ e1 :: pre2)) = (c', (tick e1 c).2) := by
+  have hrun : run sr c (ticks (pre1 ++ e1 :: pre2)) = ((tick e1 c).1, (tick e1 c).2) := by
     rw [ticks_append, run_append, hrun1]
     show ((run sr c (Event.tick e1 :: ticks pre2)).1, [] ++ (run sr c (Event.tick e1 :: ticks pre2)).2) = _
     rw [run_cons]
@@ -181,9 +184,13 @@ theorem dead_peer_disconnected (sr : Msg → Bool) (h δ : Int) (c : Conn) (envs
     rw [hrun2]; simp
   refine ⟨pre1 ++ e1 :: pre2, e2, post2, by rw [hsplit, hsplit2]; simp, ?_⟩
   rw [hrun]
-  refine ⟨ha'.toUp, n1, l1, ?_, htick, by rw [hsec] at hc1; omega, by rw [hsec] at hc2; omega⟩
-  intro f hf
-  rw [w1 f hf]; rfl
+  refine ⟨u1, n1, l1, ?_, htick, by rcases ll with l | l <;> rw [l] at hc1 <;> omega,
+    by rcases ll with l | l <;> rw [l] at hc2 <;> omega, ?_⟩
+  · intro f hf
+    rw [w1 f hf]; rfl
+  · intro hw
+    rw [lw hw] at hc1
+    omega
 
 /-- … and the whole run ends DISCONNECTED_BROKEN_CONN with the socket closed exactly once; later ticks
 do nothing. -/
@@ -193,7 +200,7 @@ theorem dead_peer_final_state (sr : Msg → Bool) (h δ : Int) (c : Conn) (envs 
     (hlong : ∃ e ∈ envs, c.lastTime + (3 * h - 1) * 1000 + δ < e.now) :
     (run sr c (ticks envs)).1.state = st_DISCONNECTED_BROKEN_CONN ∧ (run sr c (ticks envs)).1.sock = false ∧
     ((run sr c (ticks envs)).2.filter (· == .closeSocket)).length = 1 := by
-  obtain ⟨pre, e, post, hsplit, _, hnd, _, _, htick, _, _⟩ :=
+  obtain ⟨pre, e, post, hsplit, _, hnd, _, _, htick, _, _, _⟩ :=
     dead_peer_disconnected sr h δ c envs hh hδ hu hn ht0 hsp hlong
   have hrun : run sr c (ticks envs) =
       (dropped (run sr c (ticks pre)).1, (run sr c (ticks pre)).2 ++ dropEff) := by
@@ -216,7 +223,7 @@ theorem dead_peer_final_state (sr : Msg → Bool) (h δ : Int) (c : Conn) (envs 
   decide
 
 /-- non-vacuity: `c0` (h = 2, t0 = 100 000), δ = 1000, ticks every second from 100 500 to 106 500:
-probe at 101 500 (id 101), teardown at 105 500, inside (104 000, 107 000]. -/
+probe at 101 500 (id 101, went out), teardown at 106 500, inside (105 000, 107 000]. -/
 def silentTicks : List Env :=
   [env0 100500, env0 101500, env0 102500, env0 103500, env0 104500, env0 105500, env0 106500]
 
@@ -227,25 +234,26 @@ example : (run (fun _ => true) c0 (ticks silentTicks)).1.state = st_DISCONNECTED
 
 /-! ## 3. a peer that answers every TestRequest is spared -/
 
-/-- `live_peer_spared`, exact margin.  History of ticks and inbound frames in any interleaving; every
-inbound frame is benign; whenever a step records a new TestReqID `id` (at a tick at time `t`,
-`id = ⌊t/1000⌋`), no tick later than `id·1000 + 2·h·1000` happens before a Heartbeat echoing `id` is
-received (`Live … (fun t => t/1000*1000 + h*2*1000)`).  Then NO event of the history tears the
-connection down and it is still logged on at the end.  Neither `δ` nor the tick spacing matters: a tick
-reads the clock, so the margin is about tick times only. -/
-theorem live_peer_spared (sr : Msg → Bool) (h : Int) (hh : 1 ≤ h) (c : Conn) (evs : List WEv) (hu : Up h c)
-    (hn : c.testReqId = none) (hl : Live sr (fun t => t / 1000 * 1000 + h * 2 * 1000) c evs) :
+/-- `live_peer_spared`, exact margin.  History of ticks and inbound frames in time order, any
+interleaving; every inbound frame is benign; whenever a step records a new TestReqID `id` (at a tick at time
+`t`, `id = ⌊t/1000⌋`) the TestRequest went out and no tick later than `id·1000 + 2·h·1000` happens before a
+Heartbeat echoing `id` is received (`Live … (fun t => t/1000*1000 + h*2*1000)`).  Then NO event of the
+history tears the connection down and it is still logged on at the end.  Neither `δ` nor the tick spacing
+matters: a tick reads the clock, so the margin is about tick times only. -/
+theorem live_peer_spared (sr : Msg → Bool) (h : Int) (hh : 1 ≤ h) (p : Int) (c : Conn) (evs : List WEv)
+    (hu : Up h c) (hn : c.testReqId = none) (hl : Live sr (fun t => t / 1000 * 1000 + h * 2 * 1000) p c evs) :
     Up h (run sr c (hist evs)).1 ∧ NoDisc (run sr c (hist evs)).2 :=
-  live_run sr h _ hh (fun _ => Int.le_refl _) c evs ⟨hu, Or.inl hn⟩ hl
+  live_run sr h _ hh (fun _ => Int.le_refl _) p c evs ⟨hu, Or.inl hn⟩ hl
 
 /-- Sufficient margin in terms of latency: every TestRequest sent by a tick at time `t` is echoed before
 any tick later than `t + L`, with `L ≤ (2h − 1)·1000` ms.  (DESIGN's `2h·1000 − 1000 − δ` is the special
 case `L = (2h−1)·1000 − δ`.) -/
 theorem live_peer_spared_latency (sr : Msg → Bool) (h L : Int) (hh : 1 ≤ h) (hL : L ≤ (2 * h - 1) * 1000)
-    (c : Conn) (evs : List WEv) (hu : Up h c) (hn : c.testReqId = none)
-    (hl : Live sr (fun t => t + L) c evs) :
+    (p : Int) (c : Conn) (evs : List WEv) (hu : Up h c) (hn : c.testReqId = none)
+    (hl : Live sr (fun t => t + L) p c evs) :
     Up h (run sr c (hist evs)).1 ∧ NoDisc (run sr c (hist evs)).2 :=
-  live_run sr h _ hh (fun t => by show t + L ≤ t / 1000 * 1000 + h * 2 * 1000; omega) c evs ⟨hu, Or.inl hn⟩ hl
+  live_run sr h _ hh (fun t => by show t + L ≤ t / 1000 * 1000 + h * 2 * 1000; omega) p c evs
+    ⟨hu, Or.inl hn⟩ hl
 
 /-- non-vacuity: probe at 101 500 (id 101), the peer's echo arrives 3.2 s later (< (2·2−1) s + rounding),
 ticks at 102 500 … 104 500 in between: still logged on. -/
@@ -253,34 +261,42 @@ def answeredHist : List WEv :=
   [.tick (env0 100500), .tick (env0 101500), .tick (env0 102500), .tick (env0 103500), .tick (env0 104500),
    .recv (env0 104700) (peerMsg "0" "5" [(112, "101")]), .tick (env0 105500)]
 
-theorem answeredHist_live : Live (fun _ => true) (fun t => t / 1000 * 1000 + 2 * 2 * 1000) c0 answeredHist :=
+theorem answeredHist_live :
+    Live (fun _ => true) (fun t => t / 1000 * 1000 + 2 * 2 * 1000) 100000 c0 answeredHist :=
   liveB_sound (by decide +kernel)
 
 example : Up 2 (run (fun _ => true) c0 (hist answeredHist)).1 :=
-  (live_peer_spared (fun _ => true) 2 (by omega) c0 answeredHist c0_up rfl answeredHist_live).1
+  (live_peer_spared (fun _ => true) 2 (by omega) 100000 c0 answeredHist c0_up rfl answeredHist_live).1
 
 /-! ## 4. liveness by traffic alone -/
 
-/-- traffic at least every `g` ms: every event happens at most `g` ms after the latest inbound frame
-before it (`last`) -/
-def Paced (g : Int) : Int → List WEv → Prop
-  | _, [] => True
-  | last, .tick env :: rest => env.now - last ≤ g ∧ Paced g last rest
-  | last, .recv env _ :: rest => env.now - last ≤ g ∧ Paced g env.now rest
-
 /-- The property's sentence "a peer that keeps sending valid traffic … is never disconnected by the
-watchdog", read as: valid in-sequence frames at least once per heartbeat interval.  FALSE on the current
-code (Findings/C12 `not_live_peer_spared_traffic_full`): traffic refreshes `_message_last_time` but
-nothing except the echo clears `_test_req_id`, and the idle threshold `h − 1` lies below the interval. -/
-def live_peer_spared_traffic_full : Prop :=
-  ∀ (sr : Msg → Bool) (h : Int) (c : Conn) (evs : List WEv), 1 ≤ h → Up h c → c.testReqId = none →
-    Paced (h * 1000) c.lastTime evs → BenignRun sr c evs → NoDisc (run sr c (hist evs)).2
+watchdog": benign frames in time order such that every tick finds the latest one at most `2·h·1000` ms old
+(`Paced`), whether or not the peer ever answers a TestRequest.  True since fix e3d9663 (the TestRequest
+timeout also requires `lastTime` to be `2·h` old and the idle branch no longer refreshes it); before, it was
+the known finding C12-traffic-does-not-answer-testrequest. -/
+theorem live_peer_spared_traffic (sr : Msg → Bool) (h : Int) (hh : 1 ≤ h) (c : Conn) (evs : List WEv)
+    (hu : Up h c) (hn : c.testReqId = none) (ht0 : 1000 ≤ c.lastTime)
+    (hp : Paced (h * 2 * 1000) c.lastTime evs) (hb : BenignRun sr c evs) :
+    Up h (run sr c (hist evs)).1 ∧ NoDisc (run sr c (hist evs)).2 :=
+  paced_run sr h hh c.lastTime c evs hu ht0 (Int.le_refl _) (Or.inl hn) hp hb
 
-/-- Proved part: when every tick finds the latest inbound frame at most `(h − 1)·1000` ms old (`Fresh`),
-no TestRequest is ever sent (the only frames written are Heartbeats answering inbound TestRequests),
-nothing is outstanding at the end, and nothing is torn down.  Excluded: histories in which some tick
-sees a gap above `(h − 1)·1000` – for `h = 1` that is every history with a tick later than a frame. -/
-theorem live_peer_spared_traffic_partial (sr : Msg → Bool) (h : Int) (hh : 1 ≤ h) (c : Conn) (evs : List WEv)
+/-- non-vacuity = the former finding's witness: Heartbeats every 2 s (h = 2), the TestRequest of 101 500 is
+never answered, ticks every second – still logged on after 105 500 -/
+def heartbeatingPeer : List WEv :=
+  [.tick (env0 100500), .tick (env0 101500), .recv (env0 102000) (peerMsg "0" "5" []),
+   .tick (env0 102500), .tick (env0 103500), .recv (env0 104000) (peerMsg "0" "6" []),
+   .tick (env0 104500), .tick (env0 105500)]
+
+example : Up 2 (run (fun _ => true) c0 (hist heartbeatingPeer)).1 :=
+  (live_peer_spared_traffic (fun _ => true) 2 (by omega) c0 heartbeatingPeer c0_up rfl (by decide)
+    (by simp [Paced, heartbeatingPeer, c0, env0]) (benignRunB_sound (by decide +kernel))).1
+
+/-- Below the idle threshold: when every tick finds the latest inbound frame at most `(h − 1)·1000` ms old
+(`Fresh`), no TestRequest is ever sent (the only frames written are Heartbeats answering inbound
+TestRequests), nothing is outstanding at the end, and nothing is torn down.  For `h = 1` that needs a frame
+at the instant of every tick. -/
+theorem fresh_traffic_never_probed (sr : Msg → Bool) (h : Int) (hh : 1 ≤ h) (c : Conn) (evs : List WEv)
     (hu : Up h c) (hn : c.testReqId = none) (hf : Fresh h c.lastTime evs) (hb : BenignRun sr c evs) :
     Up h (run sr c (hist evs)).1 ∧ (run sr c (hist evs)).1.testReqId = none ∧
     NoDisc (run sr c (hist evs)).2 ∧ (∀ f ∈ writes (run sr c (hist evs)).2, f.mtype = mHeartbeat) :=
@@ -327,17 +343,15 @@ theorem one_outstanding_send_refused (env : Env) (c : Conn) (id : Int) (ht : c.t
 
 /-- `one_outstanding` (b): while a (truthy) id is outstanding the watchdog writes nothing, whatever the
 times are – in particular never a second TestRequest. -/
-theorem one_outstanding_tick_silent (env : Env) (h id : Int) (c : Conn) (ha : Armed h id c) (hh : 1 ≤ h)
+theorem one_outstanding_tick_silent (env : Env) (h id : Int) (c : Conn) (ha : Armed h id c)
     (h0 : id ≠ 0) : writes (tick env c).2 = [] := by
-  rw [tick_outstanding env c id ha.sock ha.active ha.tid h0 (by rw [ha.hb]; exact hh)]
-  split
-  · rfl
-  · split <;> rfl
+  rw [tick_outstanding env c id ha.sock ha.active ha.tid h0]
+  split <;> rfl
 
 /-- `wrong_id_logout`: a valid in-sequence Heartbeat whose TestReqID reads as a different number (a
 non-numeric one reads as 0) while `tid` is outstanding, Logout sendable: a Logout carrying the reason
 text is written, then the socket is closed, the state becomes DISCONNECTED_BROKEN_CONN and
-`on_disconnect` is called. -/
+`on_disconnect` is called; the watchdog fields stay reset (fix 5623bd4: no stale receive time). -/
 theorem wrong_id_logout (sr : Msg → Bool) (env : Env) (h tid : Int) (c : Conn) (m : Msg) (v : String)
     (j : Journal) (ha : Armed h tid c) (hi : InSeq c m) (hm : m.mtype = mHeartbeat)
     (hv : m.get? tTestReqID = some v) (hne : (pyInt v).getD 0 ≠ tid)
@@ -347,10 +361,11 @@ theorem wrong_id_logout (sr : Msg → Bool) (env : Env) (h tid : Int) (c : Conn)
         .onDisconnect :: rest ∧
       f.mtype = mLogout ∧ f.get? tText = some wrongIdText ∧ writes rest = [] ∧
       (recv sr env c m).1.state = st_DISCONNECTED_BROKEN_CONN ∧ (recv sr env c m).1.sock = false ∧
-      (recv sr env c m).1.testReqId = none := by
+      (recv sr env c m).1.testReqId = none ∧ (recv sr env c m).1.lastTime = 0 := by
   rw [recv_heartbeat_wrong sr env c m tid v j ha.active ha.sock hi hm ha.tid hv hne hl hj]
   obtain ⟨f1, f2, _, f4, _, _, f7⟩ := finalized_ctl env (dropped (sent c j)) m
-  exact ⟨_, _, rfl, rfl, frameOf_text env (cleared c) mLogout wrongIdText, f7, f1, f2, f4⟩
+  exact ⟨_, _, rfl, rfl, frameOf_text env (cleared c) mLogout wrongIdText, f7, f1, f2, f4,
+    finalized_lastTime_down env (dropped (sent c j)) m rfl⟩
 
 /-- `right_id_clears`: the echo of the outstanding id clears it; nothing written, still logged on. -/
 theorem right_id_clears (sr : Msg → Bool) (env : Env) (h tid : Int) (c : Conn) (m : Msg) (v : String)
@@ -360,7 +375,7 @@ theorem right_id_clears (sr : Msg → Bool) (env : Env) (h tid : Int) (c : Conn)
     writes (recv sr env c m).2 = [] ∧ NoDisc (recv sr env c m).2 := by
   rw [recv_heartbeat_echo sr env c m tid v ha.active hi hm ha.tid hv he]
   obtain ⟨f1, f2, f3, f4, f5, f6, f7⟩ := finalized_ctl env { c with testReqId := none } m
-  exact ⟨f4, ⟨f1.trans ha.active, f2.trans ha.sock, f3.trans ha.hb⟩, f5, f7, f6⟩
+  exact ⟨f4, ⟨f1.trans ha.active, f2.trans ha.sock, f3.trans ha.hb⟩, f5 ha.active, f7, f6⟩
 
 /-- `heartbeat_without_id_ignored`: an interval Heartbeat leaves the outstanding id alone. -/
 theorem heartbeat_without_id_ignored (sr : Msg → Bool) (env : Env) (h tid : Int) (c : Conn) (m : Msg)
@@ -369,7 +384,7 @@ theorem heartbeat_without_id_ignored (sr : Msg → Bool) (env : Env) (h tid : In
     writes (recv sr env c m).2 = [] ∧ NoDisc (recv sr env c m).2 := by
   rw [recv_heartbeat_idle sr env c m ha.active hi hm (Or.inr hv)]
   obtain ⟨f1, f2, f3, f4, f5, f6, f7⟩ := finalized_ctl env c m
-  exact ⟨⟨⟨f1.trans ha.active, f2.trans ha.sock, f3.trans ha.hb⟩, f4.trans ha.tid⟩, f5, f7, f6⟩
+  exact ⟨⟨⟨f1.trans ha.active, f2.trans ha.sock, f3.trans ha.hb⟩, f4.trans ha.tid⟩, f5 ha.active, f7, f6⟩
 
 /-- non-vacuity of the step lemmas' hypotheses on `c0` with id 101 outstanding -/
 def c0armed : Conn := { c0 with testReqId := some 101, lastTime := 101500 }
